@@ -31,8 +31,8 @@ type c26Op struct {
 }
 
 func (o c26Op) String() string {
-	if o.Op == "ckpt" {
-		return "ckpt"
+	if o.Op == "ckpt" || o.Op == "save" || o.Op == "rollback" {
+		return o.Op
 	}
 	if o.Op == "remove" {
 		return fmt.Sprintf("remove(%d,%d)", o.PID, o.VPage)
@@ -81,7 +81,7 @@ var c26AllOps = func() []c26Op {
 			}
 		}
 		if kind == "insert" {
-			ops = append(ops, c26Op{Op: "ckpt"})
+			ops = append(ops, c26Op{Op: "ckpt"}, c26Op{Op: "save"}, c26Op{Op: "rollback"})
 		}
 	}
 	return ops
@@ -133,6 +133,8 @@ func c26Run(hist []c26Op, observeAll bool) c26Result {
 	pt := vm.NewPageTable(12)
 	m := &c26Model{pages: map[c26Key]vm.Page{}, order: map[vm.PID][]uint64{}}
 	panics, ckpts := 0, 0
+	var kept []byte
+	var keptModel *c26Model
 
 	observe := func(step int, after string) {
 		bad := func(clause, format string, a ...any) {
@@ -284,6 +286,42 @@ func c26Run(hist []c26Op, observeAll bool) c26Result {
 					}
 				}
 			}
+		case "save":
+			// keep a checkpoint and the reference's contents for a rollback
+			var buf bytes.Buffer
+			var err error
+			msg := lib.Catch(func() { err = pt.(c26Ckpt).SaveCheckpoint(&buf) })
+			if msg != "" || err != nil {
+				bad("checkpoint:save-failed", "SaveCheckpoint: panic=%q err=%v", msg, err)
+				break
+			}
+			kept = buf.Bytes()
+			keptModel = &c26Model{pages: map[c26Key]vm.Page{}, order: map[vm.PID][]uint64{}}
+			for k, v := range m.pages {
+				keptModel.pages[k] = v
+			}
+			for k, v := range m.order {
+				keptModel.order[k] = append([]uint64(nil), v...)
+			}
+		case "rollback":
+			// load the kept checkpoint into the LIVE table, whatever it holds by now
+			if kept == nil {
+				break
+			}
+			ckpts++
+			var err error
+			msg := lib.Catch(func() { err = pt.(c26Ckpt).LoadCheckpoint(bytes.NewReader(kept)) })
+			if msg != "" || err != nil {
+				bad("checkpoint:load-failed", "LoadCheckpoint into the live table: panic=%q err=%v", msg, err)
+				break
+			}
+			m = &c26Model{pages: map[c26Key]vm.Page{}, order: map[vm.PID][]uint64{}}
+			for k, v := range keptModel.pages {
+				m.pages[k] = v
+			}
+			for k, v := range keptModel.order {
+				m.order[k] = append([]uint64(nil), v...)
+			}
 		case "ckpt":
 			ckpts++
 			before := stable()
@@ -319,6 +357,9 @@ func c26Run(hist []c26Op, observeAll bool) c26Result {
 		observe(-1, "new")
 	}
 	res.key = m.key()
+	if keptModel != nil {
+		res.key += " kept:" + keptModel.key()
+	}
 	res.rl = stable()
 	res.out = fmt.Sprintf("pages%d panics%d ckpt%d shared%v", len(m.pages), panics, ckpts, res.shared)
 	return res
